@@ -1178,9 +1178,21 @@ def replay(ctx, obj):
     return [f] if f is not None else []
 
 
+def translate_all(ctx):
+    """this cluster's facts, and the facts of the state-machine cluster whose handler model the C11H theorems are about"""
+    translate(ctx)
+    from props import ikefacts
+    ikefacts.translate(ctx)
+
+
+def correspond_all(ctx):
+    from props import hdl
+    return (correspond(ctx) or []) + hdl.tie(ctx)
+
+
 CHECK = core.Check(
-    'C11', CLUSTER, 'Props/C11.v', translate=translate, correspond=correspond, oracle=oracle, replay=replay,
-    deps=('lib',),
+    'C11', CLUSTER, ['Props/C11.v', ('ikesa', 'Props/C11H.v')], translate=translate_all, correspond=correspond_all, oracle=oracle, replay=replay,
+    deps=('lib', 'ikesa'),
     rule='(1) proposal pairs: every pair of ordered sub-lists (length 1..4) of a 5-transform universe {aes128, aes256, '
          'sha1, sha256, modp2048} exhaustively (thorough, 42025 pairs; quick: 2500 sampled) + random proposals over '
          'ENCR(x5 incl. key length None) / INTEG x3 / PRF x3 / DH x3 / ESN x2 with interleaved types, duplicates, '
